@@ -134,6 +134,7 @@ def _limits(mem_gb):
 
 RUNNING = set()
 SCRATCH = [None]
+ONLY = [None]
 
 
 def _on_term(signum, frame):
@@ -471,6 +472,7 @@ def main():
     harnesses = [dict(h) for h in prop['harnesses'] if args.tier in h.get('tiers', ('quick', 'thorough'))]
     if args.only:
         harnesses = [h for h in harnesses if args.only in h['name']]
+        ONLY[0] = args.only   # partial runs never overwrite the registered evidence file
     # seed: permutes the scheduling order only
     import random
     rnd = random.Random(seed)
@@ -683,7 +685,7 @@ def write_evidence(pid, prop, tier, seed, results, hashes, wall, nviol, known_li
     }
     if note:
         ev['coverage']['note'] = note
-    tag = os.environ.get('VERIF_TAG', '')
+    tag = os.environ.get('VERIF_TAG', '') or ('only' if ONLY[0] else '')
     evdir = os.path.join(VERIF, 'logs', 'evidence-' + tag) if (tag or os.path.realpath(REPO) != '/repo') else os.path.join(VERIF, 'evidence')
     os.makedirs(evdir, exist_ok=True)
     with open(os.path.join(evdir, pid + '.json'), 'w') as f:
